@@ -127,6 +127,29 @@ theorem widen_keeps [C05.DenseUnbounded α] (w A B : Spec α) (hw : Canon w) (hA
   | false => rfl
   | true => exact absurd ⟨v, hv'.1, hsub v hv'.2⟩ (C05.isEmpty_sound w B he)
 
+/-- the same for ANY order of bounds (PEP 440 included), over cuts: a requires_python that admits at
+    least the same positions keeps every accepted wheel -/
+theorem widen_keeps_cuts (a0 : α) (w A B : Spec α) (hw : Canon w) (hA : Canon A) (hB : Canon B)
+    (hsub : ∀ x s, A.memC x s → B.memC x s) (h : (w.and A).isEmpty = false) : (w.and B).isEmpty = false := by
+  cases he : (w.and B).isEmpty with
+  | false => rfl
+  | true =>
+    exfalso
+    have hnone := (C05.isEmpty_exact_cuts a0 _ (and_canon w B hw hB)).1 he
+    have : (w.and A).isEmpty = true := by
+      apply (C05.isEmpty_exact_cuts a0 _ (and_canon w A hw hA)).2
+      intro x s hm
+      have := (Spec.and_memC w A x s).1 hm
+      exact hnone x s ((Spec.and_memC w B x s).2 ⟨this.1, hsub x s this.2⟩)
+    rw [h] at this; cases this
+
+/-- in particular: widening by `|` (the way a requires_python is widened) never loses a wheel -/
+theorem widen_or_keeps (a0 : α) (w A C B : Spec α) (hw : Canon w) (hA : Canon A) (hC : Canon C)
+    (hor : A.or C = some B) (h : (w.and A).isEmpty = false) : (w.and B).isEmpty = false := by
+  obtain ⟨B', hB', cB, mB⟩ := Spec.or_memC A C hA hC
+  rw [hor] at hB'; cases hB'
+  exact widen_keeps_cuts a0 w A B hw hA cB (fun x s hm => (mB x s).2 (Or.inl hm)) h
+
 end generic
 
 /-! ### `compare` -/
